@@ -93,11 +93,19 @@ def _cleanup():
 _frames = {}
 
 
-def _frame(mid):
+def _frame(mid, model, state=None):
+    """The ONE frame object of this mesh in the current history, value columns rewritten in place for `state`."""
     import pandas as pd
     if mid not in _frames:
         _frames[mid] = pd.DataFrame(R.raw_table(R.MESHES[mid])).set_index(["element_id", "node_id"])
-    return _frames[mid].copy()
+    frames = model.__dict__.setdefault("_live_frames", {})
+    if mid not in frames:
+        frames[mid] = _frames[mid].copy()
+    df = frames[mid]
+    a, b = R.STATE_AFFINE[state]
+    for col in R.ALL_VALUE_COLS:
+        df[col] = a * _frames[mid][col].to_numpy() + b
+    return df
 
 
 def _call(ex, ev, model):
@@ -106,17 +114,17 @@ def _call(ex, ev, model):
     from pylife.vmap.vmap_structures import VariableLocations as VL
     try:
         if ev["kind"] == "geometry":
-            ex.add_geometry(ev["slot"], _frame(ev["mesh"]))
+            ex.add_geometry(ev["slot"], _frame(ev["mesh"], model))
         elif ev["kind"] in ("node_set", "element_set"):
             fn = ex.add_node_set if ev["kind"] == "node_set" else ex.add_element_set
-            fn(ev["slot"], pd.Index(model.set_ids(ev)), _frame(model.mesh_for(ev["slot"])["id"]), model.set_name(ev))
+            fn(ev["slot"], pd.Index(model.set_ids(ev)), _frame(model.mesh_for(ev["slot"])["id"], model), model.set_name(ev))
         else:
             kw = {}
             if ev["explicit"]:
                 kw["column_names"] = list(ev["columns"])
                 if ev["location"] is not None:
                     kw["location"] = VL[ev["location"]]
-            ex.add_variable(ev["state"], ev["slot"], ev["name"], _frame(model.mesh_for(ev["slot"])["id"]), **kw)
+            ex.add_variable(ev["state"], ev["slot"], ev["name"], _frame(model.mesh_for(ev["slot"])["id"], model, ev["state"]), **kw)
     except Exception as e:          # the exporter's failure is an outcome, not a crash of the check
         return e
     return None
@@ -282,7 +290,7 @@ def _col_equal(got, exp, j_got, j_exp):
     return all(_same(g[j_got], e[j_exp]) for g, e in zip(got, exp))
 
 
-def _compare_mesh(tab, m, variables, slot):
+def _compare_mesh(tab, m, variables, slot, state=None):
     """Imported table vs reference.  -> list of (key, detail)"""
     exp_rows = R.expected_rows(m)
     ctx = {"geometry": slot, "mesh": m["id"], "rows_contiguous_by_element": R.rows_contiguous(m)}
@@ -300,7 +308,7 @@ def _compare_mesh(tab, m, variables, slot):
                 return out
             cls = "element-order" if elseq(tab["rows"]) != elseq(exp_rows) else "node-order"
         return [("C20/roundtrip/" + cls, dict(ctx, got=tab["rows"], expected=exp_rows))]
-    cols, values = R.expected_columns(m, variables)
+    cols, values = R.expected_columns(m, variables, state)
     if tab["columns"] != cols:
         return [("C20/roundtrip/columns", dict(ctx, got=tab["columns"], expected=cols))]
     out = []
@@ -376,7 +384,7 @@ def _check_state(fn, model):
             tabs, _, err = _import(fn, slot, state=st, variables=variables, times=2)
             chains += 2
             if err and len(tabs) == 1:        # first run fine, the same chain fails the second time
-                viol += _compare_mesh(tabs[0], m, variables, slot)
+                viol += _compare_mesh(tabs[0], m, variables, slot, st)
                 viol.append(("C20/import-not-repeatable", {"geometry": slot, "mesh": m["id"], "state": st, "stage": err[0],
                                                            "how": "same importer object, second run of the chain raises",
                                                            "error": "%s: %s" % (type(err[1]).__name__, err[1])}))
@@ -385,7 +393,7 @@ def _check_state(fn, model):
                 viol.append((_import_error_key(err[0], err[1], m), {"geometry": slot, "mesh": m["id"], "state": st,
                                                                     "stage": err[0], "error": "%s: %s" % (type(err[1]).__name__, err[1])}))
                 continue
-            viol += _compare_mesh(tabs[0], m, variables, slot)
+            viol += _compare_mesh(tabs[0], m, variables, slot, st)
             if not _tables_equal(tabs[0], tabs[1]):
                 viol.append(("C20/import-not-repeatable", {"geometry": slot, "mesh": m["id"], "state": st,
                                                            "how": "same importer object, chain executed twice"}))
